@@ -286,3 +286,10 @@ impl std::ops::DerefMut for SerializerConfigRef<'_, '_> {
 		}
 	}
 }
+
+/// Verification harness mount point (only compiled under `cargo kani`; source lives outside this repository)
+#[cfg(kani)]
+#[allow(unused, missing_docs)]
+pub(crate) mod verif {
+	include!(concat!(env!("SAF_VERIF"), "/ser.rs"));
+}
